@@ -11,19 +11,21 @@ verus! {
 //@pure get
 //@world snapshot_tracker.set meta_keyspace.get_highest_seqno tree.insert tree.remove tree.remove_weak tree.clear keyspaces.get meta_keyspace.get_highest_seqno tree.get_highest_seqno seqno.fetch_max seqno.get keyspace_id_counter.fetch_max
 
-//@extract src/db.rs :: Database :: recover as=replay_active world desugar_for_plain=0 desugar_for=1,2 props=C02+C03+C04+C12+C01
+//@extract src/db.rs :: Database :: recover as=replay_active world desugar_for_plain=0 desugar_for=1,2 props=C02+C03+C04+C12+C01+C11
 //@anchor for batch in reader
 //@sig fn replay_active(db: &Database, reader: JournalBatchReader, keyspaces: &KsReadGuard) -> FjResult<()>
 //@contract
-    requires old(w).recovering, old(w).active, reader.idx@ == 0, no_indirection(reader.emits@), ids_valid(reader.emits@),
+    requires !db.supervisor.seqno.is_visible@,
+        old(w).recovering, old(w).active, reader.idx@ == 0, no_indirection(reader.emits@), ids_valid(reader.emits@),
         forall|k: u64| old(w).trees.dom().contains(k) ==> true,
     ensures replay_frame(*old(w), *final(w)), // [C12:replay-touches-only-trees]
 //@loop 0
                 invariant
-                    w.recovering, replay_frame(*old(w), *w), no_indirection(reader.emits@),
+                    w.recovering, !db.supervisor.seqno.is_visible@, replay_frame(*old(w), *w), no_indirection(reader.emits@),
                     __fjx_it0.emits == reader.emits, __fjx_it0.idx@ == __fjx_n0, 0 <= __fjx_n0 <= reader.emits@.len(),
                     w.trees == replay_batches(*old(w), old(w).trees, reader.emits@, __fjx_n0), // [C02:replay-is-the-fold-of-the-emitted-batches]
                     ids_valid(reader.emits@), all_ids_below(reader.emits@, __fjx_n0, w.next_ks_id), // [C12:P-ID-counter-above-every-journaled-id]
+                    seqnos_below(reader.emits@, __fjx_n0, w.seqno), // [C11:counter-above-every-replayed-journal-record]
                 ensures __fjx_n0 == reader.emits@.len(),
                 decreases reader.emits@.len() - __fjx_n0,
 //@proof after let batch = match (batch)
@@ -32,12 +34,13 @@ verus! {
             proof { assert(bv == reader.emits@[__fjx_n0 - 1]); }
 //@loop 1
                     invariant
-                        w.recovering, replay_frame(*old(w), *w), bv == reader.emits@[__fjx_n0 - 1], 0 < __fjx_n0 <= reader.emits@.len(), no_indirection(reader.emits@),
+                        w.recovering, !db.supervisor.seqno.is_visible@, replay_frame(*old(w), *w), bv == reader.emits@[__fjx_n0 - 1], 0 < __fjx_n0 <= reader.emits@.len(), no_indirection(reader.emits@),
                         batch.seqno == bv.seqno, batch.cleared_keyspaces@ == bv.cleared,
                         0 <= __fjx_n1 <= bv.items.len(), __fjx_it1.remaining().len() == bv.items.len() - __fjx_n1,
                         forall|j: int| 0 <= j < __fjx_it1.remaining().len() ==> item_view(#[trigger] __fjx_it1.remaining()[j]) == bv.items[__fjx_n1 + j],
                         w.trees == replay_items(*old(w), t0, bv.items, __fjx_n1, bv.seqno), // [C03:every-item-of-the-batch-applied] [C12:unknown-ids-skipped-not-aborting]
                         ids_valid(reader.emits@), all_ids_below(reader.emits@, __fjx_n0 - 1, w.next_ks_id), ids_below(bv, __fjx_n1, 0, w.next_ks_id), // [C12:P-ID-counter-above-every-journaled-id]
+                        seqnos_below(reader.emits@, __fjx_n0, w.seqno), // [C11:counter-above-every-replayed-journal-record]
                         __fjx_it0.emits == reader.emits, __fjx_it0.idx@ == __fjx_n0,
                         t0 == replay_batches(*old(w), old(w).trees, reader.emits@, __fjx_n0 - 1),
                     ensures __fjx_n1 == bv.items.len(),
@@ -46,12 +49,13 @@ verus! {
                     proof { assert(item_view(item) == bv.items[__fjx_n1 - 1]); }
 //@loop 2
                     invariant
-                        w.recovering, replay_frame(*old(w), *w), bv == reader.emits@[__fjx_n0 - 1], 0 < __fjx_n0 <= reader.emits@.len(), no_indirection(reader.emits@),
+                        w.recovering, !db.supervisor.seqno.is_visible@, replay_frame(*old(w), *w), bv == reader.emits@[__fjx_n0 - 1], 0 < __fjx_n0 <= reader.emits@.len(), no_indirection(reader.emits@),
                         batch.seqno == bv.seqno, batch.cleared_keyspaces@ == bv.cleared,
                         0 <= __fjx_n2 <= bv.cleared.len(), __fjx_it2.remaining().len() == bv.cleared.len() - __fjx_n2,
                         forall|j: int| 0 <= j < __fjx_it2.remaining().len() ==> *(#[trigger] __fjx_it2.remaining()[j]) == bv.cleared[__fjx_n2 + j],
                         w.trees == replay_clears(*old(w), replay_items(*old(w), t0, bv.items, bv.items.len() as int, bv.seqno), bv.cleared, __fjx_n2, bv.seqno), // [C04:clear-re-executed-on-replay]
                         ids_valid(reader.emits@), all_ids_below(reader.emits@, __fjx_n0 - 1, w.next_ks_id), ids_below(bv, bv.items.len() as int, __fjx_n2, w.next_ks_id), // [C12:P-ID-counter-above-every-journaled-id]
+                        seqnos_below(reader.emits@, __fjx_n0, w.seqno), // [C11:counter-above-every-replayed-journal-record]
                         __fjx_it0.emits == reader.emits, __fjx_it0.idx@ == __fjx_n0,
                         t0 == replay_batches(*old(w), old(w).trees, reader.emits@, __fjx_n0 - 1),
                     ensures __fjx_n2 == bv.cleared.len(),
@@ -64,6 +68,7 @@ verus! {
 //@proof before shim_slice_end
     proof { assert(w.trees == replay_batches(*old(w), old(w).trees, reader.emits@, reader.emits@.len() as int)); } // [C02:all-emitted-batches-replayed]
     proof { assert(all_ids_below(reader.emits@, reader.emits@.len() as int, w.next_ks_id)); } // [C12:P-ID-counter-above-every-journaled-id]
+    proof { assert(seqnos_below(reader.emits@, reader.emits@.len() as int, w.seqno)); } // [C11:counter-above-every-replayed-journal-record]
 //@end
 
 
